@@ -55,6 +55,10 @@ RULE = ('template trees over 13 node kinds (constant, table hold/jump/linear, po
         'constants as Python numbers, parameters as Scope object, parameters as numpy scalars (float64 / int64 / uint16); '
         'edge family: create_program defaults, right-only constant channel of ArithmeticAtomicPT, channel ids -1 / -2 '
         '(colliding hashes), zero-duration tables / points alone, in sequences, repeated, looped; the empty sample grid.  '
+        'Round 5 (c01_gen4): family tdep = time dependent ParallelChannelPT values / ArithmeticPT scalars a + b*t on atoms that do '
+        'not start at program time 0 (later pass of a repetition / loop, later sequence member, inside a reversal, renamed / dropped '
+        'channel, under scalar arithmetic, dyadic and decimal durations), judged against the equivalent tree of modelled node kinds; '
+        'every input of the known-finding class par-under-transformation once more for the model comparison alone.  '
         'Non-trivial = tree with >= 3 nodes that instantiates to a program.')
 TRUSTED = [
     'Coq 8.16.1 kernel + vm_compute (no native_compute)',
@@ -64,6 +68,9 @@ TRUSTED = [
     'decimal stream: binary64 rounding of the sample VALUES is not modelled; it is bounded by the declared absolute '
     'tolerance 2^-30 (checked, counted apart as inexact_cases); durations, channel sets and junction assignment are exact',
     'pointwise reading of the vectorised samplers (searchsorted slices) for sorted grids',
+    'family tdep: the translation of a time dependent ParallelChannelPT value / ArithmeticPT scalar into an equivalent tree '
+    '(FunctionPT of the atom\'s duration inside AtomicMultiChannelPT / ArithmeticAtomicPT) is harness code; the Coq model has no '
+    'time dependent transformation step',
 ]
 ASSUMPTIONS = [
     'generated numbers are dyadic with small numerators so that numpy float arithmetic is exact (all streams but the decimal one)',
@@ -75,6 +82,7 @@ ASSUMPTIONS = [
     'FunctionPT: affine expressions a + b*t with positive duration only',
     'measurements, parameter constraints, to_single_waveform, volatile parameters are not exercised (C02/C03/C05/C15)',
     'a parameter called t never occurs inside a FunctionPT expression, an ArithmeticPT scalar or a ParallelChannelPT value (there t is the time)',
+    'family tdep: affine time dependence a + b*t only; grid inside [0, duration) (no sample at t = duration)',
 ]
 
 INTERP = {'hold': 'Hold', 'jump': 'Jump', 'linear': 'Linear'}
@@ -85,7 +93,7 @@ ERRK = {'missing': 'EMissing', 'nonint': 'ENotInt', 'value': 'EValue'}
 # generation
 def gen_cases(rng, tier, ctx):
     cases = []
-    n = 330 if tier == 'quick' else 9000
+    n = 330 if tier == 'quick' else 2000
     md = 5 if tier == 'quick' else 7
     for _ in range(n):
         cases.append(G.gen_case(rng, max_depth=md))
@@ -93,18 +101,18 @@ def gen_cases(rng, tier, ctx):
     for kinds in (['const', 'table', 'seq', 'rep', 'for', 'map'], ['const', 'table', 'rev', 'seq', 'rep'],
                   ['const', 'par', 'arith', 'seq', 'map'], ['table'], ['point', 'multi', 'aarith', 'const', 'seq'],
                   ['func', 'const', 'seq', 'rev', 'rep', 'for', 'map', 'arith', 'multi']):
-        for _ in range(40 if tier == 'quick' else 800):
+        for _ in range(40 if tier == 'quick' else 200):
             cases.append(G.gen_case(rng, max_depth=4, kinds=kinds))
     base = list(cases)
-    for _ in range(60 if tier == 'quick' else 1200):
+    for _ in range(60 if tier == 'quick' else 400):
         cases.append(G.malform(rng, rng.choice(base)))
     # constant siblings at equal voltage around nested non-constant sub-programs (constant folding in to_waveform)
-    for _ in range(70 if tier == 'quick' else 1500):
+    for _ in range(70 if tier == 'quick' else 500):
         cases.append(G.gen_fold_case(rng))
     # the operator table of ArithmeticPT: operand order x operator x scalar form (plain / all channels / strict subset)
-    cases.extend(G.gen_arith_cases(rng, bodies=2 if tier == 'quick' else 40))
+    cases.extend(G.gen_arith_cases(rng, bodies=2 if tier == 'quick' else 12))
     # single tables over a small alphabet of times / values (de-duplication and constant detection of from_table)
-    for _ in range(90 if tier == 'quick' else 3000):
+    for _ in range(90 if tier == 'quick' else 800):
         cases.append(G.gen_table_case(rng))
     # exhaustive small scope of four-entry tables over binary alphabets (thorough: all 3744; quick: a random 60)
     allt = G.enum_table_cases()
@@ -116,13 +124,13 @@ def gen_cases(rng, tier, ctx):
     # round 4: the decimal stream (durations / sample rates off the dyadic grid; compared under a declared tolerance)
     cases.extend(G3.gen_dec_cases(rng, tier))
     # ... and the two input-independent variations applied to a part of the generic stream
-    for c in rng.sample(base, 40 if tier == 'quick' else 800):
+    for c in rng.sample(base, 40 if tier == 'quick' else 250):
         c2 = G2.with_t_name(rng, c)
         if c2 is not None:
             cases.append(c2)
     # round 4 (coverage audit): the same trees with pure constants handed over as Python numbers instead of strings, and
     # with the parameters given as a Scope object
-    for j, c in enumerate(rng.sample(base, 36 if tier == 'quick' else 700)):
+    for j, c in enumerate(rng.sample(base, 36 if tier == 'quick' else 220)):
         c2 = dict(c)
         c2['numobj' if j % 3 else 'as_scope'] = True
         if j % 6 == 1:
@@ -130,7 +138,7 @@ def gen_cases(rng, tier, ctx):
         cases.append(c2)
     # ... and with the parameter values handed over as numpy scalars (float64 / int64; unsigned 16 bit for non-negative
     # integers: `p - 2` must not wrap around)
-    for j, c in enumerate(rng.sample([c for c in base if c['params']], 30 if tier == 'quick' else 600)):
+    for j, c in enumerate(rng.sample([c for c in base if c['params']], 30 if tier == 'quick' else 200)):
         c2 = dict(c)
         c2['ptypes'] = {k: ('npu' if j % 2 else 'np') for k in c['params']}
         c2['nptypes'] = 'unsigned' if j % 2 else 'signed'
@@ -139,7 +147,7 @@ def gen_cases(rng, tier, ctx):
     # round 5: time dependent transformation values (ParallelChannelPT value / ArithmeticPT scalar containing t) on atoms that
     # do not start at program time 0; judged against the equivalent tree of modelled node kinds (see c01_gen4)
     cases.extend(G4.gen_tdep_cases(rng, tier))
-    for c in rng.sample(base, 30 if tier == 'quick' else 600):
+    for c in rng.sample(base, 30 if tier == 'quick' else 200):
         c2 = dict(c)
         c2['warm'] = {k: str(F(v) + rng.choice([F(1), F(-1), F(1, 2)])) for k, v in c['params'].items()}
         cases.append(c2)
@@ -919,15 +927,26 @@ MANIFEST = {
                   'stream checks the code against; seeded change C01-5 = boundaries accumulated in binary64 is caught). '
                   'Found and repaired in /repo through the new streams: NaN as first sample of a time reversed table with '
                   'exact-rational entry times, spurious padding entry for mixed exact / float final times (9148363), '
-                  'wrap-around of unsigned numpy parameter values (d131b58). Fourth known finding: a table with an inner entry '
-                  'at a non-zero decimal offset answers a grid point on the entry with the earlier segment.',
-    'level_note': '_partial: C01_sampling_partial assumes that to_waveform succeeds (guaranteed by qupulse constructors '
+                  'wrap-around of unsigned numpy parameter values (d131b58). Fourth known finding (narrowed in round 5 after the '
+                  'repair e2c868b): a table with an inner voltage jump at a decimal time, played time reversed, answers a grid '
+                  'point on the mirrored entry with the earlier segment. Round 5 (audit): C01_sampled_denotes_partial composes '
+                  'the two halves (get_sampled of to_waveform(program) = denotation; hypotheses: to_waveform succeeds, channel '
+                  'membership); C01_arith_meaning / C01_par_values_last tie the operator tables that the denotation shares with '
+                  'the model to plain arithmetic. Tested only, not proved: "no sample is NaN"; time dependent transformation '
+                  'values (family tdep, judged against an equivalent tree built by the harness; seeded change C01-7).',
+    'level_note': 'The guards exclude more than the findings they are named after: guard_C01_par_order every ParallelChannelPT below '
+                  'a transformation node (also when the outer node leaves its channels alone), guard_C01_tables also zero-length '
+                  'linear entries, FunctionPT of non-positive duration and triple final time points outside time reversal. '
+                  'C01_denotes_relative / C01_compositional / C01_compositional2 / C01_emission / C01_junctions are lemma-level '
+                  '(semantic hypotheses, discharged inside C01_denotes). Inputs flagged table-final-triple are excused from both '
+                  'oracles. '
+                  '_partial: C01_sampling_partial assumes that to_waveform succeeds (guaranteed by qupulse constructors '
                   'for well-formed templates, not by the model). ArithmeticAtomicPT with an operand of duration 0 plays the '
                   'other operand alone; there the specification still mirrors the code (observed, not classified). '
                   'Open: error correspondence '
                   '(C01_errors_statement is false as stated: eager scope evaluation in ArithmeticPT, non-injective '
                   'channel mappings). Not modelled: non-affine FunctionPT expressions (the affine FunctionWaveform is '
-                  'represented by the observationally equal linear table), time-dependent transformation values, '
+                  'represented by the observationally equal linear table), time-dependent transformation values (tested only), '
                   'to_single_waveform, measurements, constraints, volatile parameters, composite templates used as atoms '
                   '(MappingPT / ParallelChannelPT / TimeReversalPT / ArithmeticPT.build_waveform inside AtomicMultiChannelPT). '
                   'Float rounding is modelled away (dyadic inputs) or bounded by the declared tolerance (decimal stream); no '
